@@ -393,6 +393,15 @@ impl C06 {
 			// the operation does not even succeed without faults (e.g. insufficient funds): nothing to enumerate
 			return Ok(());
 		}
+		// scan(delete_unconfirmed = true) releases pending transactions by design: after a crash the spendable amount is
+		// the reference below (nothing released yet) or the amount the completed, unfaulted scan leaves
+		let alt_spendable: Option<u64> = if c.target == 10 && c.scan_delete {
+			let wal = world::open_wallet(&fw_root, &wal_name, node.clone(), "", false)?;
+			wal.with(|b| b.set_parent_key_id(parent.clone()));
+			Some(cancel_targets_and_spendable(&wal, &p, &parent)?)
+		} else {
+			None
+		};
 		// reference: spendable after an unfaulted cancel of the target's entry on the pre-operation state
 		let expected_spendable = self.spendable_after_cancel(&wal_dir, &fw_root, &wal_name, &node, &p, &parent, None)?;
 		// ---- enumerate fault points
@@ -447,7 +456,7 @@ impl C06 {
 					}
 				};
 				wal.with(|b| b.set_parent_key_id(parent.clone()));
-				self.after_reopen(&sim, &wal, &p, &tag, expected_spendable, &kc, acct, out);
+				self.after_reopen(&sim, &wal, &p, &tag, expected_spendable, alt_spendable, &kc, acct, out);
 				drop(wal);
 				if out.fails.len() > 3 {
 					break;
@@ -488,7 +497,7 @@ impl C06 {
 		cancel_targets_and_spendable(&wal, p, parent)
 	}
 
-	fn after_reopen(&self, sim: &Sim, wal: &Wal, p: &Prepared, tag: &str, expected_spendable: u64, kc: &ExtKeychain, acct: usize, out: &mut Outcome) {
+	fn after_reopen(&self, sim: &Sim, wal: &Wal, p: &Prepared, tag: &str, expected_spendable: u64, alt_spendable: Option<u64>, kc: &ExtKeychain, acct: usize, out: &mut Outcome) {
 		let short = tag.split(':').next().unwrap_or("t").to_string();
 		// every query call answers without panic
 		let q = guard(|| {
@@ -551,7 +560,7 @@ impl C06 {
 		let parent = wal.active_parent();
 		match guard(|| cancel_targets_and_spendable(wal, p, &parent)) {
 			Ok(Ok(sp)) => {
-				if sp != expected_spendable {
+				if sp != expected_spendable && Some(sp) != alt_spendable {
 					out.fail(
 						format!("c06:{}:spendable-not-restored", short),
 						format!("after fault {} and cancelling the pending transaction spendable is {} ; an unfaulted cancel gives {}", tag, sp, expected_spendable),
